@@ -385,8 +385,9 @@ class Check:
 
     def finish(self):
         wall = time.time() - self.t0
-        os.makedirs(os.path.join(VERIF, "evidence"), exist_ok=True)
-        rdir = os.path.join(VERIF, "evidence", "replay")
+        evdir = os.environ.get("VERIF_EVIDENCE_DIR", os.path.join(VERIF, "evidence"))
+        os.makedirs(evdir, exist_ok=True)
+        rdir = os.path.join(evdir, "replay")
         cov = self.cov
         if not cov["samples"]:
             cov["samples"] = ["(no obligations were generated)"]
@@ -402,7 +403,7 @@ class Check:
             "wall_s": round(wall, 2),
             "violations": len(self.violations),
         }
-        with open(os.path.join(VERIF, "evidence", self.pid + ".json"), "w") as f:
+        with open(os.path.join(evdir, self.pid + ".json"), "w") as f:
             json.dump(ev, f, indent=1, sort_keys=True)
             f.write("\n")
         for key, what in self.known:
